@@ -31,6 +31,9 @@ ENTRIES = {'single': ['send', 'call', '__call__', 'proxy'], 'notification': ['se
            'batch': ['send', 'batch.call', 'batch.proxy()', 'batch.proxy.call']}
 
 
+TRACER_STYLES = ['full', 'full', 'super', 'partial', 'logging-first']
+
+
 def strategy_for(n: int) -> Dict[str, Any]:
     return {'attempts': n, 'codes': [LISTED], 'exceptions': ['ExcE'], 'backoff': {'kind': 'periodic', 'interval': 0.5}, 'jitter': []}
 
@@ -44,7 +47,7 @@ class C19(Check):
         "cases: per-attempt outcome words over {response ok, response with listed / unlisted error code, listed / unlisted transport exception, "
         "body that is not JSON, body that is not a response (object / scalar), identity mismatch, BaseException (harness BaseException subclass; "
         "asyncio.CancelledError on the async side)} - all words of length n+1 for retry strategies of n = 0..2 attempts (enumerated, both tiers; "
-        "n = 3 in thorough) x 0..3 tracers x single / batch / notification x entry point {send with a hand-built request, call, __call__, proxy attribute, notify, batch.send, batch.add().call(), batch.proxy...(), batch.proxy....call()} x caller-supplied vs default trace context x request made normally / from inside an except block of the caller x sync / async (rotating); "
+        "n = 3 in thorough) x 0..3 tracers (overriding all three hooks; overriding them and calling the base class; overriding begin / end only; behind the library's LoggingTracer) x single / batch / notification x entry point {send with a hand-built request, call, __call__, proxy attribute, notify, batch.send, batch.add().call(), batch.proxy...(), batch.proxy....call()} x caller-supplied vs default trace context x request made normally / from inside an except block of the caller x sync / async (rotating); "
         "plus Hypothesis-drawn configurations. Oracle: the event log is, per attempt, begin by every tracer in configuration order, then "
         "exactly one completion by every tracer in order - end with the returned response object (None for notifications) or error with "
         "the raised exception (identity) - begin and completion of one attempt carry the same context object (the caller's when supplied, "
@@ -59,7 +62,8 @@ class C19(Check):
     required_classes = ['tracers/0', 'tracers/1', 'tracers/2', 'tracers/3', 'ctx/caller', 'ctx/default', 'kind/single', 'kind/batch',
                         'kind/notification', 'client/sync', 'client/async', 'attempts>=2', 'outcome/base-exc', 'outcome/identity',
                         'outcome/not-json', 'outcome/not-response', 'entry/send', 'entry/call', 'entry/proxy', 'entry/notify',
-                        'entry/batch.call', 'entry/batch.proxy()', 'entry/batch.proxy.call', 'caller/inside-except-block']
+                        'entry/batch.call', 'entry/batch.proxy()', 'entry/batch.proxy.call', 'caller/inside-except-block',
+                        'tracer-style/super', 'tracer-style/partial', 'tracer-style/logging-first']
 
     def _words(self, maxn: int, shard: int = 0, nshards: int = 1):
         i = 0
@@ -72,7 +76,8 @@ class C19(Check):
                     rk = ['single', 'batch', 'notification'][i % 3]
                     yield {'client': client, 'request': rk, 'tracers': (i // 3) % 4,
                            'ctx': ['caller', 'default'][(i // 12) % 2], 'strategy': strategy_for(n) if n or i % 5 else None,
-                           'outcomes': list(word), 'entry': ENTRIES[rk][(i // 7) % len(ENTRIES[rk])], 'in_handler': i % 5 == 0}
+                           'outcomes': list(word), 'entry': ENTRIES[rk][(i // 7) % len(ENTRIES[rk])], 'in_handler': i % 5 == 0,
+                           'tracer_style': TRACER_STYLES[(i // 3) % len(TRACER_STYLES)]}
 
     def enumerate(self, tier: str):
         return self._words(2) if tier == 'quick' else None
@@ -90,7 +95,7 @@ class C19(Check):
     def strategy(self, tier: str):
         return st.builds(
             lambda c, r, t, x, n, o, e: {'client': c, 'request': r, 'tracers': t, 'ctx': x, 'strategy': strategy_for(n) if n is not None else None, 'outcomes': o,
-                                         'entry': ENTRIES[r][e % len(ENTRIES[r])], 'in_handler': e >= 8},
+                                         'entry': ENTRIES[r][e % len(ENTRIES[r])], 'in_handler': e >= 8, 'tracer_style': TRACER_STYLES[(e + t) % len(TRACER_STYLES)]},
             st.sampled_from(['sync', 'async']), st.sampled_from(['single', 'batch', 'notification']), st.integers(0, 3),
             st.sampled_from(['caller', 'default']), st.sampled_from([None, 0, 1, 2, 3]), st.lists(st.sampled_from(NAMES), min_size=4, max_size=4),
             st.integers(0, 11),
@@ -138,7 +143,13 @@ class C19(Check):
             return json.dumps(out if isinstance(doc, list) else out[0])
 
         log: List[List[Any]] = []
-        tracers = ch.make_tracers(spec['tracers'], log)
+        style = spec.get('tracer_style', 'full')
+        tracers = ch.make_tracers(spec['tracers'], log, 'full' if style == 'logging-first' else style)
+        if style == 'logging-first' and tracers:
+            # the library's own LoggingTracer configured ahead of the application's tracers (it is not recorded; it must not disturb them)
+            from pjrpc.client.tracer import LoggingTracer
+            tracers = [LoggingTracer()] + tracers
+        partial = style == 'partial'
         kwargs: Dict[str, Any] = {'tracers': tracers}
         if s is not None:
             kwargs['retry_strategy'] = ch.build_strategy(s)
@@ -200,31 +211,37 @@ class C19(Check):
                 value, exc = None, e
 
         discs: List[Disc] = []
-        where = f"client={kind} request={rkind} entry={entry} tracers={spec['tracers']} ctx={spec['ctx']} attempts={s['attempts'] if s else None} outcomes={names}"
+        where = f"client={kind} request={rkind} entry={entry} tracers={spec['tracers']} style={spec.get('tracer_style', 'full')} ctx={spec['ctx']} attempts={s['attempts'] if s else None} outcomes={names}"
         T = spec['tracers']
         n_sent = len(client.sent)
         if n_sent != sends:
             discs.append(Disc("C19/attempt-count", f"{n_sent} sends, model {sends} | {where}"))
         begins = len([e for e in log if e[0] == 'begin'])
         completions = len([e for e in log if e[0] != 'begin'])
-        if begins != completions:
+        if begins != completions and not partial:
             discs.append(Disc("C19/begin-and-completion-counts-differ", f"{begins} begins, {completions} completions | {where}"))
-        # per attempt structure
-        expected_len = n_sent * 2 * T
+        # per attempt structure (a 'partial' tracer does not record error completions: it inherits the library's no-op on_error,
+        # so a failing attempt leaves just its begin events - and in particular no 'end')
+        def attempt_returns(k: int) -> bool:
+            return outcomes[min(k, len(outcomes) - 1)]['kind'] in ('ok', 'code')
+        sizes = [T * (2 if (attempt_returns(k) or not partial) else 1) for k in range(n_sent)]
+        expected_len = sum(sizes)
         if len(log) != expected_len:
-            discs.append(Disc("C19/event-count", f"{len(log)} events, expected {expected_len} ({n_sent} attempts x {T} tracers x 2) | {where} | {[e[:2] for e in log]}"))
+            discs.append(Disc("C19/event-count", f"{len(log)} events, expected {expected_len} ({n_sent} attempts x {T} tracers, style {style}) | {where} | {[e[:2] for e in log]}"))
         else:
+            pos = 0
             for k in range(n_sent):
-                block = log[k * 2 * T:(k + 1) * 2 * T]
+                block = log[pos:pos + sizes[k]]
+                pos += sizes[k]
                 o = outcomes[min(k, len(outcomes) - 1)]
                 returns = o['kind'] in ('ok', 'code')
                 want_kind = 'end' if returns else 'error'
                 kinds = [e[0] for e in block]
                 idxs = [e[1] for e in block]
-                if kinds != ['begin'] * T + [want_kind] * T:
+                if kinds != ['begin'] * T + [want_kind] * (sizes[k] - T):
                     discs.append(Disc(f"C19/event-kinds/{want_kind}-expected", f"attempt {k}: {kinds} | {where}"))
                     break
-                if idxs != list(range(T)) * 2:
+                if idxs != (list(range(T)) * 2)[:sizes[k]]:
                     discs.append(Disc("C19/tracer-order", f"attempt {k}: tracer order {idxs} | {where}"))
                     break
                 ctxs = {e[2] for e in block}
@@ -277,7 +294,7 @@ class C19(Check):
             if second:
                 if any(getattr(e[3], 'mark_left_by_first_request', False) for e in second) or ({e[2] for e in second} & first_ctx_ids):
                     discs.append(Disc("C19/default-context-shared-between-requests", f"the second request's tracer events carry a context of the first request | {where}"))
-        classes = [f"tracers/{T}", f"ctx/{spec['ctx']}", f"kind/{rkind}", f"client/{kind}", f"entry/{entry}"] + (['caller/inside-except-block'] if spec.get('in_handler') else [])
+        classes = [f"tracers/{T}", f"ctx/{spec['ctx']}", f"kind/{rkind}", f"client/{kind}", f"entry/{entry}", f"tracer-style/{style}"] + (['caller/inside-except-block'] if spec.get('in_handler') else [])
         if n_sent >= 2:
             classes.append('attempts>=2')
         used = names[:max(n_sent, 1)]
